@@ -39,7 +39,8 @@ def Z(n):
 
 THEOREMS = ['C10_coherent_inv', 'C10_history', 'C10_history_pure', 'C10_per_call_state_fresh',
             'C10_indenter_yields_agree', 'C10_lazy_init_safe', 'C10_callbacks_complete',
-            'C10_lazy_init_race_old_order_refuted', 'C10_no_reset_refuted', 'C10_example', 'C10_example_threads']
+            'C10_lazy_init_race_old_order_refuted', 'C10_no_reset_refuted', 'C10_example', 'C10_example_threads',
+            'C10_other_instances', 'C10_construction_pure', 'C10_configuration_immutable', 'C10_example_process']
 GEN_DEPS = ['InstOrder', 'IndenterHoles']
 RULE = ('histories: random sequences (0-6 operations) over the public API {parse ok / failing in lexer, parser or Indenter, '
         'parse(start=...), parse(on_error=...), lex and lex(dont_ignore=True) and scan consumed partially or abandoned, '
